@@ -50,6 +50,8 @@ func mkAction(kind string) *ref.Prog {
 		return &ref.Prog{Ops: []ref.Op{{Op: "emit", V: map[string]interface{}{"id": "e-before-fail"}}, {Op: "fail", V: "ACTFAIL"}}, Ret: "same"}
 	case "null":
 		return &ref.Prog{Ops: []ref.Op{{Op: "emit", V: map[string]interface{}{"id": "e2"}}}, Ret: "null"}
+	case "loop":
+		return &ref.Prog{Ops: []ref.Op{{Op: "emit", V: map[string]interface{}{"id": "e-before-loop"}}, {Op: "loop"}}, Ret: "same"}
 	case "target":
 		return &ref.Prog{Ops: []ref.Op{{Op: "set", K: "t", V: "n2"}, {Op: "emit", V: map[string]interface{}{"id": "e3"}}}, Ret: "same"}
 	}
@@ -188,11 +190,27 @@ func toCoreState(s ref.AState) *core.State {
 
 // checkStep runs one step and compares it with the reference.
 func checkStep(rec *fw.Rec, tag string, a *ref.ASpec, cs *core.Spec, env ref.Env, markers map[string]bool, st ref.AState, pending interface{}, ctl *core.Control) (ok bool, stride *core.Stride) {
+	return checkStepCtx(rec, tag, a, cs, env, markers, st, pending, ctl, "")
+}
+
+// checkStepCtx: ctxMode "" = no deadline (150 ms if the environment has one), "deadline" = 40 ms,
+// "cancelled" = a context that has ended before the call.
+func checkStepCtx(rec *fw.Rec, tag string, a *ref.ASpec, cs *core.Spec, env ref.Env, markers map[string]bool, st ref.AState, pending interface{}, ctl *core.Control, ctxMode string) (ok bool, stride *core.Stride) {
 	replay := map[string]interface{}{"spec": a, "native": env.Native, "state": st, "pending": pending}
+	if ctxMode != "" {
+		replay["context"] = ctxMode
+	}
 	var err error
 	ctx := context.Background()
 	var cancel context.CancelFunc
-	if env.HaveDeadline {
+	switch {
+	case ctxMode == "cancelled":
+		ctx, cancel = context.WithCancel(ctx)
+		cancel()
+	case ctxMode == "deadline":
+		ctx, cancel = context.WithTimeout(ctx, 40*time.Millisecond)
+		defer cancel()
+	case env.HaveDeadline:
 		ctx, cancel = context.WithTimeout(ctx, 150*time.Millisecond)
 		defer cancel()
 	}
@@ -251,6 +269,72 @@ func runConfigs(cfg fw.Config, rec *fw.Rec, full, native bool, sampleEvery int, 
 			if i%50000 == 17 {
 				rec.Sample(map[string]interface{}{"configuration": a, "native": native, "states": len(states), "pendings": len(pendings)})
 			}
+		}
+	})
+}
+
+// endedContexts: an action that fails because its time is up - the documented action timeout -
+// or that fails on its own after the caller's context has ended is a failed action like any
+// other: routed by the spec's error settings.
+func endedContexts(cfg fw.Config, rec *fw.Rec) {
+	sh := shapes(false)
+	var lists [][]shape
+	lists = append(lists, nil)
+	for _, s := range sh {
+		lists = append(lists, []shape{s})
+	}
+	type job struct {
+		c       config
+		native  bool
+		ctxMode string
+	}
+	var jobs []job
+	for _, act := range []string{"loop", "fail"} {
+		for st := 0; st < 4; st++ {
+			var cs []config
+			cs = append(cs, config{action: act, branching: "absent", settings: st})
+			for _, bt := range []string{"message", "bindings"} {
+				for _, l := range lists {
+					cs = append(cs, config{action: act, branching: bt, branches: l, settings: st})
+				}
+			}
+			for _, c := range cs {
+				if act == "loop" {
+					jobs = append(jobs, job{c, true, "deadline"}, job{c, true, "cancelled"}, job{c, false, "deadline"})
+				} else {
+					jobs = append(jobs, job{c, true, "cancelled"})
+				}
+			}
+		}
+	}
+	rec.SetExtra("configs_ended-contexts", len(jobs))
+	fw.Parallel(cfg.Workers, len(jobs), func(w, i int) {
+		j := jobs[i]
+		if !j.native && cfg.Pick(3, 1) > 1 && (i/3)%3 != 0 {
+			return
+		}
+		a := j.c.spec()
+		spec, err := a.Compiled(j.native, ref.NativeNilErr)
+		if err != nil {
+			rec.Violation("C04:compile", "enumerated configuration does not compile: "+err.Error(), a)
+			return
+		}
+		env := ref.Env{Native: j.native, HaveDeadline: true}
+		markers := ref.SpecMarkers(a)
+		allOK := true
+		for si, st := range states {
+			for pi, p := range pendings[:2] {
+				if !j.native && (si+pi)%2 == 1 {
+					continue
+				}
+				ok, _ := checkStepCtx(rec, "ended-context", a, spec, env, markers, st, p, nil, j.ctxMode)
+				allOK = allOK && ok
+			}
+		}
+		if allOK {
+			rec.Nontrivial(fw.Canon([]interface{}{"ended-context", j.ctxMode, j.native, j.c.action, j.c.branching, j.c.branches, j.c.settings}))
+			rec.Bucket("configs_checked_ended-context_" + j.ctxMode)
+			rec.Bucket(fmt.Sprintf("ended-context_settings_%d", j.c.settings))
 		}
 	})
 }
@@ -379,8 +463,8 @@ func randomSpecs(cfg fw.Config, rec *fw.Rec, n int) {
 }
 
 func Run(cfg fw.Config, rec *fw.Rec) {
-	rec.Rule = "enumerated single-node configurations (action x branching type x branch lists of length 0-2 over a pattern/guard/target vocabulary x 4 error settings) x 5 states x 5 pending values, each compiled with native and with ECMAScript actions, Spec.Step compared with an executable reference of the documented rule; plus every stride of random 3-node specs; non-trivial = configuration (or random spec) on which every compared step agreed; distinct by configuration"
-	rec.Required = []string{"configs_checked_reduced-native", "configs_checked_reduced-ecma", "random_specs_walked", "clause_branch taken", "clause_guarded branch taken", "clause_guard chose among several candidates", "specs_compiled_without_force_checked", "clause_no branch applies", "clause_action failed; error returned", "clause_action failed; action error node", "clause_unknown node", "clause_message branching without a pending message"}
+	rec.Rule = "enumerated single-node configurations (action x branching type x branch lists of length 0-2 over a pattern/guard/target vocabulary x 4 error settings) x 5 states x 5 pending values, each compiled with native and with ECMAScript actions, Spec.Step compared with an executable reference of the documented rule; plus the same for actions that run into a 40 ms deadline (ECMAScript `while(true){}`, native waiting for the context) or fail under a context that ended before the call, under all 4 error settings and every branch list of length 0-1; plus every stride of random 3-node specs; non-trivial = configuration (or random spec) on which every compared step agreed; distinct by configuration"
+	rec.Required = []string{"configs_checked_reduced-native", "configs_checked_reduced-ecma", "random_specs_walked", "clause_branch taken", "clause_guarded branch taken", "clause_guard chose among several candidates", "specs_compiled_without_force_checked", "clause_no branch applies", "clause_action failed; error returned", "clause_action failed; action error node", "clause_unknown node", "clause_message branching without a pending message", "configs_checked_ended-context_deadline", "configs_checked_ended-context_cancelled", "ended-context_settings_1", "ended-context_settings_2"}
 	rec.Assume = []string{"the reference transcribes README 'Processing', doc/by-example.md and the doc comments of core/step.go, core/spec.go; where code alone defines behaviour (error + error-node state together, exact lastBindings content) the comparison is loose", "Spec.Step inspects only the current node and spec-level settings, so single-node configurations cover specs of any size for one step"}
 	// reduced vocabulary: complete enumeration, native; ECMAScript complete in thorough, 1/8 sample in quick
 	runConfigs(cfg, rec, false, true, 1, "reduced-native")
@@ -388,6 +472,7 @@ func Run(cfg fw.Config, rec *fw.Rec) {
 	// full vocabulary: native complete in thorough (1/10 in quick); ECMAScript sampled
 	runConfigs(cfg, rec, true, true, cfg.Pick(10, 1), "full-native")
 	runConfigs(cfg, rec, true, false, cfg.Pick(400, 40), "full-ecma")
+	endedContexts(cfg, rec)
 	multiCandidates(rec)
 	unforcedCompile(rec)
 	randomSpecs(cfg, rec, cfg.Pick(20000, 300000))
